@@ -269,7 +269,7 @@ Lemma v_insert_ok : forall v s, val_wf v -> set_ok s -> set_ok (snd (set_insert 
 Proof.
   intros v s Hv [Hs1 Hs2]. split.
   - apply (set_insert_allP val vlt val_wf); auto.
-  - unfold vsorted. apply (set_insert_sorted val vlt val_wf); auto using vlt_irrefl, vlt_trans, vequiv_trans.
+  - unfold vsorted. apply (set_insert_sorted val vlt val_wf); try exact vlt_irrefl; try exact vlt_trans; try exact vequiv_trans; auto.
 Qed.
 Lemma v_erase_ok : forall v s, set_ok s -> set_ok (snd (set_erase vlt v s)).
 Proof.
@@ -399,4 +399,188 @@ Proof.
   - apply Forall_forall. intros x Hx. apply repeat_spec in Hx. subst. constructor.
   - apply Forall_forall. intros x Hx. apply repeat_spec in Hx. subst. split; constructor.
   - apply Forall_forall. intros x Hx. apply repeat_spec in Hx. subst. split; [constructor|split; constructor].
+Qed.
+
+(* ------------------------------------------------------------------ container laws, stated on the C functions *)
+Lemma nth_error_lt : forall A (l : list A) n x, nth_error l n = Some x -> (n < length l)%nat.
+Proof. intros. apply nth_error_Some. congruence. Qed.
+
+Definition NOEXC := RetCode SYMENGINE_NO_EXCEPTION.
+
+(* CVecBasic behaves as a vector (in range) *)
+Theorem vec_laws : forall st i j k l v,
+  nth_error (s_v st) i = Some l -> nth_error (s_b st) j = Some v -> (k < length (s_b st))%nat ->
+  let st1 := set_v st i (l ++ [v]) in
+  (* push_back appends *)
+  hand_step "vecbasic_push_back" st [AV i; AB j] = (NOEXC, st1) /\
+  hand_step "vecbasic_size" st1 [AV i] = (RetInt (Z.of_nat (S (length l))), st1) /\
+  (* the new element is the last one, the old ones stay where they were *)
+  hand_step "vecbasic_get" st1 [AV i; AZ (Z.of_nat (length l)); AB k] = (NOEXC, set_b st1 k v) /\
+  (forall n x, nth_error l n = Some x ->
+     hand_step "vecbasic_get" st1 [AV i; AZ (Z.of_nat n); AB k] = (NOEXC, set_b st1 k x)) /\
+  (* set replaces exactly one element *)
+  (forall n, (n < length l)%nat ->
+     hand_step "vecbasic_set" st [AV i; AZ (Z.of_nat n); AB j] = (NOEXC, set_v st i (upd_nth l n v)) /\
+     nth_error (upd_nth l n v) n = Some v /\
+     (forall m, m <> n -> nth_error (upd_nth l n v) m = nth_error l m) /\ length (upd_nth l n v) = length l) /\
+  (* erase removes exactly one element and shifts the rest *)
+  (forall n, (n < length l)%nat ->
+     hand_step "vecbasic_erase" st [AV i; AZ (Z.of_nat n)] = (NOEXC, set_v st i (remove_nth l n)) /\
+     length (remove_nth l n) = pred (length l) /\
+     (forall m, (m < n)%nat -> nth_error (remove_nth l n) m = nth_error l m) /\
+     (forall m, (n <= m)%nat -> nth_error (remove_nth l n) m = nth_error l (S m))).
+Proof.
+  intros st i j k l v Hl Hv Hk st1.
+  assert (Hi : (i < length (s_v st))%nat) by (eapply nth_error_lt; eauto).
+  assert (Hl1 : nth_error (s_v st1) i = Some (l ++ [v])) by (cbn; apply nth_upd_nth_eq; exact Hi).
+  assert (Hk1 : (k <? length (s_b st1))%nat = true) by (cbn; apply Nat.ltb_lt; exact Hk).
+  repeat split.
+  - cbn. unfold h_vec_push_back. rewrite Hl, Hv. reflexivity.
+  - cbn. unfold h_vec_size. cbn in Hl1. rewrite Hl1. rewrite app_length. cbn. rewrite Nat.add_1_r. reflexivity.
+  - change (hand_step "vecbasic_get") with h_vec_get. unfold h_vec_get. rewrite Hl1, Hk1.
+    replace (Z.of_nat (length l) <? 0)%Z with false by (symmetry; apply Z.ltb_ge; lia).
+    rewrite Nat2Z.id. rewrite nth_app_last. reflexivity.
+  - intros n x Hn. change (hand_step "vecbasic_get") with h_vec_get. unfold h_vec_get. rewrite Hl1, Hk1.
+    replace (Z.of_nat n <? 0)%Z with false by (symmetry; apply Z.ltb_ge; lia).
+    rewrite Nat2Z.id. rewrite nth_app_old by (eapply nth_error_lt; eauto). rewrite Hn. reflexivity.
+  - change (hand_step "vecbasic_set") with h_vec_set. unfold h_vec_set. rewrite Hl, Hv.
+    replace (Z.of_nat n <? 0)%Z with false by (symmetry; apply Z.ltb_ge; lia).
+    rewrite Nat2Z.id. replace (n <? length l)%nat with true by (symmetry; apply Nat.ltb_lt; assumption). reflexivity.
+  - apply nth_upd_nth_eq. assumption.
+  - intros m Hm. apply nth_upd_nth_ne. congruence.
+  - apply upd_nth_length.
+  - change (hand_step "vecbasic_erase") with h_vec_erase. unfold h_vec_erase. rewrite Hl.
+    replace (Z.of_nat n <? 0)%Z with false by (symmetry; apply Z.ltb_ge; lia).
+    rewrite Nat2Z.id. replace (n <? length l)%nat with true by (symmetry; apply Nat.ltb_lt; assumption). reflexivity.
+  - apply remove_nth_length. assumption.
+  - intros m Hm. apply nth_remove_nth_lt. assumption.
+  - intros m Hm. apply nth_remove_nth_ge. assumption.
+Qed.
+
+(* ... and, AS CODED, an index outside the vector is not answered with an error code: the model reaches the
+   unchecked access.  (Refutes "every call returns a result or an error code" for vecbasic_get / set / erase
+   and setbasic_get; replayed on the library: abort under _GLIBCXX_ASSERTIONS, SIGSEGV, or silent corruption.) *)
+Theorem vec_out_of_range_unchecked : forall st i j l n,
+  nth_error (s_v st) i = Some l -> (j < length (s_b st))%nat -> (length l <= n)%nat ->
+  hand_step "vecbasic_get" st [AV i; AZ (Z.of_nat n); AB j] = (MemErr (N.of_nat n) (nlen l), st) /\
+  hand_step "vecbasic_erase" st [AV i; AZ (Z.of_nat n)] = (MemErr (N.of_nat n) (nlen l), st).
+Proof.
+  intros st i j l n Hl Hj Hn. split.
+  - change (hand_step "vecbasic_get") with h_vec_get. unfold h_vec_get. rewrite Hl.
+    replace (Z.of_nat n <? 0)%Z with false by (symmetry; apply Z.ltb_ge; lia).
+    replace (j <? length (s_b st))%nat with true by (symmetry; apply Nat.ltb_lt; assumption).
+    rewrite Nat2Z.id. cbn [negb].
+    replace (nth_error l n) with (@None val) by (symmetry; apply nth_error_None; assumption).
+    rewrite <- nat_N_Z. rewrite N2Z.id. reflexivity.
+  - change (hand_step "vecbasic_erase") with h_vec_erase. unfold h_vec_erase. rewrite Hl.
+    replace (Z.of_nat n <? 0)%Z with false by (symmetry; apply Z.ltb_ge; lia).
+    rewrite Nat2Z.id. replace (n <? length l)%nat with false by (symmetry; apply Nat.ltb_ge; assumption).
+    rewrite <- nat_N_Z. rewrite N2Z.id. reflexivity.
+Qed.
+
+(* CSetBasic behaves as a set of eq-classes *)
+Theorem set_laws : forall st i j s v,
+  state_inv st -> nth_error (s_s st) i = Some s -> nth_error (s_b st) j = Some v ->
+  let st1 := set_s st i (snd (set_insert vlt v s)) in
+  (* insert answers 1 exactly when no eq element was stored *)
+  hand_step "setbasic_insert" st [AS i; AB j] = (RetInt (if set_find vlt v s then 0 else 1), st1) /\
+  (* inserting again changes nothing and answers 0 *)
+  hand_step "setbasic_insert" st1 [AS i; AB j] = (RetInt 0, st1) /\
+  (* membership afterwards: the inserted element, and whatever was there before *)
+  (forall j' w, nth_error (s_b st) j' = Some w ->
+     hand_step "setbasic_find" st1 [AS i; AB j'] =
+       (RetInt (if equiv val vlt w v || set_find vlt w s then 1 else 0), st1)) /\
+  hand_step "setbasic_size" st1 [AS i] = (RetInt (Z.of_nat (length s + (if set_find vlt v s then 0 else 1))), st1) /\
+  (* erase answers whether an eq element was stored; afterwards it is not a member, all others are untouched *)
+  (let st2 := set_s st i (snd (set_erase vlt v s)) in
+   hand_step "setbasic_erase" st [AS i; AB j] = (RetInt (if set_find vlt v s then 1 else 0), st2) /\
+   (forall j' w, nth_error (s_b st) j' = Some w ->
+      hand_step "setbasic_find" st2 [AS i; AB j'] =
+        (RetInt (if negb (equiv val vlt w v) && set_find vlt w s then 1 else 0), st2))).
+Proof.
+  intros st i j s v Hinv Hs Hv st1.
+  pose proof Hinv as [H1 H2 H3 H4].
+  assert (Hi : (i < length (s_s st))%nat) by (eapply nth_error_lt; eauto).
+  assert (Hvw : val_wf v) by (eapply Forall_nth_error; eauto).
+  assert (Hso : set_ok s) by (eapply (Forall_nth_error _ set_ok); eauto).
+  destruct Hso as [Hs1 Hs2].
+  assert (Hs1' : nth_error (s_s st1) i = Some (snd (set_insert vlt v s))) by (cbn; apply nth_upd_nth_eq; exact Hi).
+  assert (Hfst : fst (set_insert vlt v s) = negb (set_find vlt v s)).
+  { apply (set_insert_fst val vlt val_wf); auto. }
+  repeat split.
+  - change (hand_step "setbasic_insert") with h_set_insert. unfold h_set_insert. rewrite Hs, Hv. rewrite Hfst.
+    destruct (set_find vlt v s); reflexivity.
+  - change (hand_step "setbasic_insert") with h_set_insert. unfold h_set_insert. rewrite Hs1'.
+    change (s_b st1) with (s_b st). rewrite Hv.
+    rewrite (set_insert_idem val vlt val_wf vlt_irrefl v s Hvw). cbn [fst snd].
+    unfold st1 at 1. unfold set_s. cbn [s_b s_v s_s s_m].
+    unfold st1, set_s. cbn [s_b s_v s_s s_m].
+    replace (upd_nth (upd_nth (s_s st) i (snd (set_insert vlt v s))) i (snd (set_insert vlt v s)))
+      with (upd_nth (s_s st) i (snd (set_insert vlt v s))); [reflexivity|].
+    clear - Hi. revert i Hi. induction (s_s st) as [|y r IH]; intros i Hi; destruct i; cbn in *; try lia; auto.
+    f_equal. apply IH. lia.
+  - intros j' w Hw. change (hand_step "setbasic_find") with h_set_find. unfold h_set_find. rewrite Hs1'.
+    change (s_b st1) with (s_b st). rewrite Hw.
+    assert (Hww : val_wf w) by (eapply Forall_nth_error; eauto).
+    rewrite (set_find_insert val vlt val_wf vlt_irrefl vlt_trans vequiv_trans v w s Hvw Hww Hs1 Hs2). reflexivity.
+  - change (hand_step "setbasic_size") with h_set_size. unfold h_set_size. rewrite Hs1'.
+    rewrite (set_insert_length val vlt). rewrite Hfst. destruct (set_find vlt v s); reflexivity.
+  - change (hand_step "setbasic_erase") with h_set_erase. unfold h_set_erase. rewrite Hs, Hv.
+    rewrite (set_erase_fst val vlt). reflexivity.
+  - intros j' w Hw. change (hand_step "setbasic_find") with h_set_find. unfold h_set_find.
+    assert (Hs2' : nth_error (s_s (set_s st i (snd (set_erase vlt v s)))) i = Some (snd (set_erase vlt v s)))
+      by (cbn; apply nth_upd_nth_eq; exact Hi).
+    rewrite Hs2'. change (s_b (set_s st i (snd (set_erase vlt v s)))) with (s_b st). rewrite Hw.
+    assert (Hww : val_wf w) by (eapply Forall_nth_error; eauto).
+    rewrite (set_find_erase val vlt val_wf vlt_irrefl vlt_trans vequiv_trans v w s Hvw Hww Hs1 Hs2). reflexivity.
+Qed.
+
+(* setbasic_get: no range check in the code *)
+Theorem set_get_unchecked : forall st i j s n,
+  nth_error (s_s st) i = Some s -> (j < length (s_b st))%nat -> (length s <= n)%nat ->
+  hand_step "setbasic_get" st [AS i; AZ (Z.of_nat n); AB j] = (MemErr (N.of_nat n) (nlen s), st).
+Proof.
+  intros st i j s n Hs Hj Hn.
+  change (hand_step "setbasic_get") with h_set_get. unfold h_set_get. rewrite Hs.
+  replace (j <? length (s_b st))%nat with true by (symmetry; apply Nat.ltb_lt; assumption). cbn [negb].
+  replace (Z.of_nat n <? 0)%Z with false by (symmetry; apply Z.ltb_ge; lia).
+  rewrite Nat2Z.id.
+  replace (nth_error s n) with (@None val) by (symmetry; apply nth_error_None; assumption).
+  rewrite <- nat_N_Z. rewrite N2Z.id. reflexivity.
+Qed.
+
+(* CMapBasicBasic behaves as a map on eq-classes of keys *)
+Theorem map_laws : forall st i j k o m key v,
+  state_inv st -> nth_error (s_m st) i = Some m -> nth_error (s_b st) j = Some key -> nth_error (s_b st) k = Some v ->
+  (o < length (s_b st))%nat ->
+  let st1 := set_m st i (map_set vlt key v m) in
+  hand_step "mapbasicbasic_insert" st [AM i; AB j; AB k] = (RetVoid, st1) /\
+  (* lookup after insert: the new value under every eq key, the old binding under any other key *)
+  (forall j' key', nth_error (s_b st) j' = Some key' ->
+     hand_step "mapbasicbasic_get" st1 [AM i; AB j'; AB o] =
+       match (if equiv val vlt key' key then Some v else map_get vlt key' m) with
+       | Some x => (RetInt 1, set_b st1 o x)
+       | None => (RetInt 0, st1)
+       end) /\
+  (* the size grows by one exactly when the key was new *)
+  hand_step "mapbasicbasic_size" st1 [AM i] =
+    (RetInt (Z.of_nat (length m + match map_get vlt key m with Some _ => 0 | None => 1 end)), st1).
+Proof.
+  intros st i j k o m key v Hinv Hm Hkey Hv Ho st1.
+  pose proof Hinv as [H1 H2 H3 H4].
+  assert (Hi : (i < length (s_m st))%nat) by (eapply nth_error_lt; eauto).
+  assert (Hkw : val_wf key) by (eapply Forall_nth_error; eauto).
+  assert (Hmo : map_ok m) by (eapply (Forall_nth_error _ map_ok); eauto).
+  destruct Hmo as [Hm1 [Hm2 Hm3]].
+  assert (Hm1' : nth_error (s_m st1) i = Some (map_set vlt key v m)) by (cbn; apply nth_upd_nth_eq; exact Hi).
+  repeat split.
+  - change (hand_step "mapbasicbasic_insert") with h_map_insert. unfold h_map_insert. rewrite Hm, Hkey, Hv. reflexivity.
+  - intros j' key' Hk'. change (hand_step "mapbasicbasic_get") with h_map_get. unfold h_map_get. rewrite Hm1'.
+    change (s_b st1) with (s_b st). rewrite Hk'.
+    replace (o <? length (s_b st))%nat with true by (symmetry; apply Nat.ltb_lt; assumption). cbn [negb].
+    assert (Hkw' : val_wf key') by (eapply Forall_nth_error; eauto).
+    rewrite (map_get_set val vlt val_wf vlt_irrefl vlt_trans vequiv_trans val key key' v m Hkw Hkw' Hm1 Hm3).
+    reflexivity.
+  - change (hand_step "mapbasicbasic_size") with h_map_size. unfold h_map_size. rewrite Hm1'.
+    rewrite (map_set_length val vlt val_wf val key v m Hkw Hm1 Hm3). reflexivity.
 Qed.
